@@ -20,7 +20,7 @@ RULE = (
     "an id., and as a page range) x 3 pools."
 )
 ASSUMPTIONS = [
-    "four pre-validated value pools of party names / reporters / pages (all enumerated in both tiers)",
+    "five pre-validated value pools of party names / reporters / pages (all enumerated in both tiers)",
     "id. offsets {+2, -5, +500}: +2 is within the opinion, -5 before its first page, +500 implausibly far",
     "nothing is asserted about ambiguous references (C07 covers them) nor about an id. that follows one",
 ]
@@ -31,6 +31,8 @@ POOLS = [
     [("Alpha", "Beta", "5", "F.3d", "100"), ("Gamma", "Delta", "5", "F.3d", "300"), ("Kappa", "Sigma", "7", "Cal. 4th", "40")],
     # sibling series of one reporter family with the same volume (and, for two of them, the same page): distinct reporters
     [("Adams", "Baker", "100", "F.2d", "200"), ("Clark", "Dunn", "100", "F.3d", "200"), ("Evans", "Flynn", "100", "F.", "350")],
+    # two-letter party names (shorter than the three characters a *reference* citation needs; short forms and supra do not have that floor)
+    [("Wu", "Li", "13", "Cal. 3d", "804"), ("Smith", "Ng", "13", "Cal. 3d", "100"), ("Ito", "Oz", "2", "F.2d", "20")],
 ]
 NCASES = 3
 NL_MAX = 4  # scenarios of <= 4 events are also rendered one sentence per line
